@@ -139,6 +139,30 @@ def run(tier, seed):
                              {'pattern': pat, 'namespaces': nsm, 'markup': matchcheck.markup_of(sc), 'added': [str(t_) for t_ in bad],
                               'element_namespace': None})
         scs.append(sc)
+    # prefixes are compared exactly: a prefix that differs from a mapped one only in letter case is unmapped (matches nothing), and two
+    # keys that differ only in case are two prefixes - in every kind of document
+    for sc0 in campaign.build(rnd, 'ns', n // 4, 0):
+        top = sc0.top
+        used = sorted({e.namespace for e in top.find_all(True) if getattr(e, 'namespace', None)})
+        if not used:
+            continue
+        u1, u2 = rnd.choice(used), rnd.choice(used + ['urn:nowhere'])
+        for nsm, pat, same_as in (({'ns': u1}, 'NS|*', None), ({'ns': u1}, 'Ns|*, nS|*', None), ({'ns': u1, 'NS': u2}, 'NS|*', ('z|*', {'z': u2})),
+                                  ({'ns': u1, 'NS': u2}, 'ns|*', ('z|*', {'z': u1})), ({'xl': u1}, '[XL|href], [Xl|*]' if False else '[XL|href]', None),
+                                  ({'Pf': u1}, 'pf|*', None), ({'Pf': u1}, 'Pf|*', ('z|*', {'z': u1}))):
+            try:
+                with warnings.catch_warnings():
+                    warnings.simplefilter('ignore')
+                    got = [id(e) for e in sv.select(pat, top, namespaces=nsm)]
+                    want = [] if same_as is None else [id(e) for e in sv.select(same_as[0], top, namespaces=same_as[1])]
+            except Exception:
+                ck.notes['skipped_prefix_case_raise'] = ck.notes.get('skipped_prefix_case_raise', 0) + 1
+                continue
+            ck.count(('prefix-case', pat, len(want) > 0))
+            if got != want:
+                ck.violation(f'{pat!r} with namespaces {nsm!r} selects {len(got)} element(s); prefixes are compared exactly, so it designates '
+                             f'{"nothing (the prefix is not in the map)" if same_as is None else "what " + repr(same_as[0]) + " with " + repr(same_as[1]) + " does: " + str(len(want))}',
+                             {'pattern': pat, 'namespaces': nsm, 'markup': matchcheck.markup_of(sc0), 'tree': sc0.label})
     # the prefix map is read when the selector is compiled: what the caller does to its own dictionary afterwards changes nothing
     for sc in campaign.build(rnd, 'ns', n // 3, 0, depth=1):
         top = sc.top
